@@ -1,6 +1,7 @@
 package worker
 
 import (
+	"reflect"
 	"bytes"
 	"encoding/json"
 	"fmt"
@@ -402,10 +403,11 @@ type optSnap struct {
 	hasU   bool
 	skip   bool
 	algo   distiller.PaginationAlgo
+	whole  distiller.Options // the whole value, whatever fields it has (unexported ones included)
 }
 
 func takeOptSnap(o *distiller.Options) optSnap {
-	s := optSnap{flags: o.LogFlags, urlPtr: o.OriginalURL, skip: o.SkipPagination, algo: o.PaginationAlgo}
+	s := optSnap{flags: o.LogFlags, urlPtr: o.OriginalURL, skip: o.SkipPagination, algo: o.PaginationAlgo, whole: *o}
 	if o.OriginalURL != nil {
 		s.url = *o.OriginalURL
 		if o.OriginalURL.User != nil {
@@ -449,6 +451,10 @@ func (s optSnap) verify(o *distiller.Options) []string {
 			out = append(out, "*OriginalURL.User modified")
 		}
 		_ = wasUser
+	}
+	if len(out) == 0 && !reflect.DeepEqual(s.whole, *o) {
+		// a field this harness does not know by name (one a change to the library added, possibly unexported)
+		out = append(out, fmt.Sprintf("Options. value changed: %+v -> %+v", s.whole, *o))
 	}
 	return out
 }
